@@ -105,12 +105,27 @@ def r1_forward_msg(L, repo):
     return S, M
 
 
-def resolver(L, repo, meth, fixed_attr, pos):
+def resolver(L, repo, meth, fixed_attr, pos, force_shape=False):
     ci, fd = repo.need_method("transceiver", "Transceiver", meth)
     F = rel("transceiver")
     L.unit(F)
     fn = "Transceiver." + meth
     L.fn(F, fn)
+    if not force_shape:
+        # decided by folding the getter (helpers included) over its complete state space: hopping configured or not;
+        # the frequencies, the frame number and the resolved pair are opaque values the getter can only pass on
+        from cmdfold import fold_freq_getter
+        from consteval import Opaque
+        fo = fold_freq_getter(repo, meth)
+        if fo is not None:
+            arg = (Opaque("FN"),)
+            pair = (Opaque("RX@%r" % (arg,)), Opaque("TX@%r" % (arg,)))
+            L.require("C02.R2", F, fn, "no hopping configured: the fixed frequency is returned, the resolver is not consulted",
+                      (Opaque("self." + fixed_attr), []), fo["fixed"], line=fd.lineno)
+            L.require("C02.R2", F, fn, "hopping configured: element %d (%s) of the pair resolved for the frame number given" % (
+                pos, "Rx" if pos == 0 else "Tx"), (pair[pos], [arg]), fo["hopping"], line=fd.lineno)
+            L.structural("C02.R2 shape of %s" % fn, resolver, L, repo, meth, fixed_attr, pos, True)
+            return
     ps = params(fd)
     if len(ps) != 2:
         raise AnalysisError("%s signature changed" % fn)
